@@ -14,6 +14,7 @@ import Driver.C17
 import Driver.C20
 import Driver.C16
 import Driver.C18
+import Driver.C12
 /-
   Line-protocol driver: one operation per input line, one canonical output line per operation.
   Imports `Model/` only (no Mathlib, no proofs) so that it links as a `lean_exe`.
@@ -38,7 +39,8 @@ def handlers : List Handler := [
   Driver.C17.handle,
   Driver.C20.handle,
   Driver.C16.handle,
-  Driver.C18.handle
+  Driver.C18.handle,
+  Driver.C12.handle
 ]
 
 def step (st : DState) (line : String) : DState × String :=
